@@ -300,3 +300,4 @@ for _p in ("C01", "C19"):
     PROPS[_p]["e2"] += [E("interpreter_selftest", "p_selftest", "lemma_interpreter_selftest")]
 PROPS["C11"]["e2"] += [E("partition", "p_parblock", "lemma_partition")]
 PROPS["C06"]["e2"] += [E("copy_node", "p_libfs", "lemma_copy_node")]
+PROPS["C10"]["e2"] += [E("copy_xattr", "p_libfs", "lemma_copy_xattr")]
